@@ -425,6 +425,43 @@ var shapes = []shape{
 			vfAssert(a.F == b.F, "arrays.F")
 			vfAssert(a.G == b.G, "arrays.G")
 		}},
+	{name: "custom", nums: []int{1, 2, 3, 4, 5},
+		mk: func() any {
+			v := pCustom{A: i32(0), C: pBlob{vfBytes(vfLen)}, D: i32(1), E: vfString(vfLen)}
+			for i := 0; i < vfLen2; i++ {
+				v.R = append(v.R, pBlob{vfBytes(vfLen)})
+			}
+			return v
+		},
+		newp: func() any { return new(pCustom) },
+		check: func(v, p any) {
+			a, b := v.(pCustom), *p.(*pCustom)
+			vfAssert(a.A == b.A, "custom.A")
+			vfAssert(string(a.C.B) == string(b.C.B), "custom.C")
+			vfAssert(a.D == b.D, "custom.D")
+			vfAssert(len(a.R) == len(b.R), "custom.R-len")
+			if len(a.R) == len(b.R) {
+				for i := range a.R {
+					vfAssert(string(a.R[i].B) == string(b.R[i].B), "custom.R-elem")
+				}
+			}
+			vfAssert(a.E == b.E, "custom.E")
+		}},
+}
+
+// pBlob is a gogo-style custom type (Size/MarshalTo/Unmarshal on the pointer receiver) of variable size.
+type pBlob struct{ B []byte }
+
+func (c *pBlob) Size() int                       { return len(c.B) }
+func (c *pBlob) MarshalTo(b []byte) (int, error) { return copy(b, c.B), nil }
+func (c *pBlob) Unmarshal(b []byte) error        { c.B = append([]byte(nil), b...); return nil }
+
+type pCustom struct {
+	A int32
+	C pBlob
+	D int32
+	R []pBlob
+	E string
 }
 
 type pPair struct {
